@@ -207,12 +207,14 @@ class CallListerVisitor(ast.NodeVisitor):
         self.namespace = Namespace()
         self.calls = []
         self.to_revisit = []
+        self.revisiting = False
         self.varargs = None
         self.varkwargs = None
 
         self.process_parameters(func.args, main=True)
         for stmt in func.body:
             self.visit(stmt)
+        self.revisiting = True
         for node, ns in self.to_revisit:
             self.namespace = ns
             self.process_Call(node)
@@ -347,7 +349,7 @@ class CallListerVisitor(ast.NodeVisitor):
             hide_args, hide_kwargs))
 
     def visit_Call(self, node):
-        if self.namespace.parent is None:
+        if self.namespace.parent is None or self.revisiting:
             self.process_Call(node)
         else:
             self.to_revisit.append((node, self.namespace))
